@@ -290,6 +290,20 @@ theorem ident_only_gate_reinterprets :
     ∧ (indexOf .Some [(.None, []), (.Some, [0])] 0).bind (nameAt rotoOptionVariants) = some .None := by
   decide
 
+/-- **`builtin_types_admitted`** (∀ Rust boundary types of any nesting).  The gate admits every
+    boundary type under its built-in spelling — `crossing_sound` is not vacuous for any Rust type,
+    and the family the correspondence runs on is the family that crosses. -/
+theorem builtin_types_admitted (nm : Nat → NScope × TIdent) (r : RTy) :
+    gate gateArms r (builtinImage nm r) = true := by
+  induction r with
+  | unit => simp [builtinImage, gate]
+  | prim p => simp [builtinImage, gate, leaf_scope, STy.scope?, STy.ident?, STy.arity]
+  | val id l => simp [builtinImage, gate, STy.decl?, gateValByTypeId]
+  | option r ih => simp [builtinImage, gate, arm_option, nameTest, STy.scope?, STy.ident?, STy.arity, ih]
+  | list r ih => simp [builtinImage, gate, arm_list, nameTest, STy.scope?, STy.ident?, STy.arity, ih]
+  | result a b iha ihb => simp [builtinImage, gate, arm_result, nameTest, STy.scope?, STy.ident?, STy.arity, iha, ihb]
+  | verdict a b iha ihb => simp [builtinImage, gate, arm_verdict, nameTest, STy.scope?, STy.ident?, STy.arity, iha, ihb]
+
 /-! ## What is admitted has the layout Rust gives it -/
 
 /-- **`admitted_mir_type`** (∀ Rust types, ∀ signature types of any nesting).  The MIR type the script
